@@ -32,13 +32,33 @@ def is_const(t, *vals) -> bool:
     return isinstance(t, tuple) and t and t[0] == "const" and (not vals or any(t[1] == v and type(t[1]) is type(v) for v in vals))
 
 
+def assume(t, p, val: bool):
+    """t simplified under the assumption that condition p evaluates to ``val`` (only through the cond spine)."""
+    if isinstance(t, tuple) and t and t[0] == "cond":
+        if t[1] == p:
+            return assume(t[2] if val else t[3], p, val)
+        a, b = assume(t[2], p, val), assume(t[3], p, val)
+        c = assume(t[1], p, val) if (isinstance(t[1], tuple) and t[1] and t[1][0] == "cond") else t[1]
+        if a is t[2] and b is t[3] and c is t[1]:
+            return t
+        return mk_cond(c, a, b)
+    return t
+
+
 def mk_cond(c, a, b):
     if a == b:
         return a
     if is_const(c):
         return a if c[1] else b
     if c[0] == "not":
-        return ("cond", c[1], b, a)
+        return mk_cond(c[1], b, a)
+    if c[0] == "cond":
+        # a decision over decisions: (x if (q if p else r) else y)  ==  ((x if q else y) if p else (x if r else y))
+        p, q, r = c[1], c[2], c[3]
+        return mk_cond(p, mk_cond(q, assume(a, p, True), assume(b, p, True)), mk_cond(r, assume(a, p, False), assume(b, p, False)))
+    a, b = assume(a, c, True), assume(b, c, False)
+    if a == b:
+        return a
     return ("cond", c, a, b)
 
 
@@ -116,14 +136,34 @@ def merge_states(c, a: State | None, b: State | None) -> State | None:
 
 
 class Outcome:
-    """Merged states of the paths of a block, by the way they end."""
-    __slots__ = ("live", "ret", "brk", "cont")
+    """Merged states of the paths of a block, by the way they end; ``*c`` is the condition (a term) under which the block
+    ended that way (None = unknown / not tracked)."""
+    __slots__ = ("live", "ret", "brk", "cont", "retc", "brkc", "contc")
 
-    def __init__(self, live=None, ret=None, brk=None, cont=None):
+    def __init__(self, live=None, ret=None, brk=None, cont=None, retc=None, brkc=None, contc=None):
         self.live = live
         self.ret = ret
         self.brk = brk
         self.cont = cont
+        self.retc = retc if ret is not None else None
+        self.brkc = brkc if brk is not None else None
+        self.contc = contc if cont is not None else None
+
+
+def mk_or(a, b):
+    if a is None or b is None:
+        return None
+    return mk_cond(a, TRUE, b)
+
+
+def join_exit(a, ac, b, bc):
+    """Exit state/condition of 'a happened earlier, else b': (state, condition)."""
+    if a is None:
+        return b, bc
+    if b is None:
+        return a, ac
+    c = ac if ac is not None else ("earlier_exit",)
+    return merge_states(c, a, b), mk_or(ac, bc)
 
 
 class Activation:
@@ -1044,9 +1084,10 @@ class Interp:
         finally:
             self.stack.pop()
         # function result and the caller-visible state (attribute stores)
-        exits = merge_states(("fellthrough", act.id), out.live, out.ret) if (out.live and out.ret) else (out.live or out.ret)
+        rc = out.retc if out.retc is not None else ("returned", act.id)
+        exits = merge_states(rc, out.ret, out.live) if (out.live and out.ret) else (out.live or out.ret)
         if out.live is not None and out.ret is not None:
-            rv = mk_cond(("fellthrough", act.id), NONE, out.ret.env.get("__ret__", NONE))
+            rv = mk_cond(rc, out.ret.env.get("__ret__", NONE), NONE)
         elif out.ret is not None:
             rv = out.ret.env.get("__ret__", NONE)
         else:
@@ -1126,18 +1167,21 @@ class Interp:
             if isinstance(s, ast.If):
                 o = self.exec_if(s, out.live, tree, stmts[i:])
                 if o is not None:          # rest of the block was consumed inside a branch
+                    self._acc(out, o)
                     out.live = o.live
-                    out.ret = self._merge_exit(out.ret, o.ret)
-                    out.brk = self._merge_exit(out.brk, o.brk)
-                    out.cont = self._merge_exit(out.cont, o.cont)
                     return out
                 continue
             o = self.exec_stmt(s, out.live, tree)
+            self._acc(out, o)
             out.live = o.live
-            out.ret = self._merge_exit(out.ret, o.ret)
-            out.brk = self._merge_exit(out.brk, o.brk)
-            out.cont = self._merge_exit(out.cont, o.cont)
         return out
+
+    @staticmethod
+    def _acc(out: Outcome, o: Outcome) -> None:
+        """Accumulate the exits of a later statement behind the exits seen so far."""
+        out.ret, out.retc = join_exit(out.ret, out.retc, o.ret, o.retc)
+        out.brk, out.brkc = join_exit(out.brk, out.brkc, o.brk, o.brkc)
+        out.cont, out.contc = join_exit(out.cont, out.contc, o.cont, o.contc)
 
     @staticmethod
     def _merge_exit(a: State | None, b: State | None) -> State | None:
@@ -1146,6 +1190,17 @@ class Interp:
         if b is None:
             return a
         return merge_states(("earlier_exit",), a, b)
+
+    @staticmethod
+    def _branch_exit(c, a, ac, b, bc):
+        """Exit of an if: branch a under c, branch b otherwise."""
+        if a is None and b is None:
+            return None, None
+        if a is None:
+            return b, (mk_cond(c, FALSE, bc) if bc is not None else None)
+        if b is None:
+            return a, (mk_cond(c, ac, FALSE) if ac is not None else None)
+        return merge_states(c, a, b), (mk_cond(c, ac, bc) if ac is not None and bc is not None else None)
 
     def exec_if(self, s: ast.If, st: State, tree: list, rest: list) -> Outcome | None:
         """Returns None when evaluated in place (state merged into ``st``); otherwise the outcome of
@@ -1159,7 +1214,11 @@ class Interp:
             if o.live is None:
                 return o
             o2 = self.exec_block(rest, o.live, tree)
-            return Outcome(o2.live, self._merge_exit(o.ret, o2.ret), self._merge_exit(o.brk, o2.brk), self._merge_exit(o.cont, o2.cont))
+            res = Outcome(live=o2.live)
+            self._acc(res, o)
+            self._acc(res, o2)
+            res.live = o2.live
+            return res
         ft, fe = st.fork(), st.fork()
         tt: list = []
         te: list = []
@@ -1168,30 +1227,41 @@ class Interp:
         node = ("if", c, tt, te, s.lineno)
         tree.append(node)
         exits = lambda o: o.ret is not None or o.brk is not None or o.cont is not None
+
+        def combine(ot_, oe_):
+            r = Outcome()
+            r.ret, r.retc = self._branch_exit(c, ot_.ret, ot_.retc, oe_.ret, oe_.retc)
+            r.brk, r.brkc = self._branch_exit(c, ot_.brk, ot_.brkc, oe_.brk, oe_.brkc)
+            r.cont, r.contc = self._branch_exit(c, ot_.cont, ot_.contc, oe_.cont, oe_.contc)
+            return r
+
         if ot.live is not None and oe.live is not None:
             m = merge_states(c, ot.live, oe.live)
             st.env, st.ext = m.env, m.ext
             if not exits(ot) and not exits(oe):
                 return None
             # partial exits: continue flat with the merged live state
+            first = combine(ot, oe)
             o2 = self.exec_block(rest, st, tree)
-            return Outcome(o2.live, self._m3(c, ot.ret, oe.ret, o2.ret), self._m3(c, ot.brk, oe.brk, o2.brk),
-                           self._m3(c, ot.cont, oe.cont, o2.cont))
+            self._acc(first, o2)
+            first.live = o2.live
+            return first
         if ot.live is None and oe.live is None:
-            return Outcome(None, merge_states(c, ot.ret, oe.ret), merge_states(c, ot.brk, oe.brk), merge_states(c, ot.cont, oe.cont))
+            return combine(ot, oe)
         # exactly one branch stays live: the rest of the block belongs to it (canonical nesting)
         if ot.live is not None:
             o2 = self.exec_block(rest, ot.live, tt)
-            return Outcome(o2.live, merge_states(c, self._merge_exit(ot.ret, o2.ret), oe.ret),
-                           merge_states(c, self._merge_exit(ot.brk, o2.brk), oe.brk),
-                           merge_states(c, self._merge_exit(ot.cont, o2.cont), oe.cont))
+            acc = Outcome(ret=ot.ret, brk=ot.brk, cont=ot.cont, retc=ot.retc, brkc=ot.brkc, contc=ot.contc)
+            self._acc(acc, o2)
+            r = combine(acc, oe)
+            r.live = o2.live
+            return r
         o2 = self.exec_block(rest, oe.live, te)
-        return Outcome(o2.live, merge_states(c, ot.ret, self._merge_exit(oe.ret, o2.ret)),
-                       merge_states(c, ot.brk, self._merge_exit(oe.brk, o2.brk)),
-                       merge_states(c, ot.cont, self._merge_exit(oe.cont, o2.cont)))
-
-    def _m3(self, c, a, b, later):
-        return self._merge_exit(merge_states(c, a, b), later)
+        acc = Outcome(ret=oe.ret, brk=oe.brk, cont=oe.cont, retc=oe.retc, brkc=oe.brkc, contc=oe.contc)
+        self._acc(acc, o2)
+        r = combine(ot, acc)
+        r.live = o2.live
+        return r
 
     def exec_stmt(self, s: ast.stmt, st: State, tree: list) -> Outcome:
         m = getattr(self, "st_" + type(s).__name__, None)
@@ -1226,7 +1296,7 @@ class Interp:
         v = self.ev(st, s.value, tree) if s.value is not None else NONE
         tree.append(("return", v, s.lineno))
         st.env["__ret__"] = v
-        return Outcome(ret=st)
+        return Outcome(ret=st, retc=TRUE)
 
     def st_Raise(self, s, st, tree):
         v = self.ev(st, s.exc, tree) if s.exc is not None else ("reraise",)
@@ -1235,11 +1305,11 @@ class Interp:
 
     def st_Break(self, s, st, tree):
         tree.append(("break", s.lineno))
-        return Outcome(brk=st)
+        return Outcome(brk=st, brkc=TRUE)
 
     def st_Continue(self, s, st, tree):
         tree.append(("continue", s.lineno))
-        return Outcome(cont=st)
+        return Outcome(cont=st, contc=TRUE)
 
     def st_Delete(self, s, st, tree):
         for t in s.targets:
@@ -1433,10 +1503,14 @@ class Interp:
                 if after.ext.get(k2) != v2:
                     after.ext[k2] = ("loopout_attr", lid, k2[0], k2[1])
         ret = out.ret
+        retc = ("loopret", lid) if ret is not None else None
         if s.orelse:
             o2 = self.exec_block(s.orelse, after, tree)
-            return Outcome(o2.live, self._merge_exit(ret, o2.ret), o2.brk, o2.cont)
-        return Outcome(live=after, ret=ret)
+            r = Outcome(live=o2.live, ret=ret, retc=retc)
+            self._acc(r, o2)
+            r.live = o2.live
+            return r
+        return Outcome(live=after, ret=ret, retc=retc)
 
     def _unroll_elems(self, it):
         """Elements of a small, statically known sequence (tuple display / list display / class- or module-level table)."""
@@ -1510,8 +1584,8 @@ class Interp:
         o = self.exec_block(list(s.body) + [marker], st, tree)
         # a break ends the loop; the code after the loop runs on the merged state
         if o.brk is not None:
-            live = self._merge_exit(o.live, o.brk)
-            return Outcome(live=live, ret=o.ret, cont=o.cont)
+            live = merge_states(o.brkc, o.brk, o.live) if (o.live is not None and o.brkc is not None) else self._merge_exit(o.live, o.brk)
+            return Outcome(live=live, ret=o.ret, cont=o.cont, retc=o.retc, contc=o.contc)
         return o
 
     def st_While(self, s, st, tree):
@@ -1551,12 +1625,13 @@ class Interp:
         for i, o in enumerate(outs):
             c = ("exc_path", s.lineno, i)
             res.live = merge_states(c, o.live, res.live) if (o.live and res.live) else (o.live or res.live)
-            res.ret = self._merge_exit(res.ret, o.ret)
-            res.brk = self._merge_exit(res.brk, o.brk)
-            res.cont = self._merge_exit(res.cont, o.cont)
+            res.ret, res.retc = join_exit(res.ret, None, o.ret, None)
+            res.brk, res.brkc = join_exit(res.brk, None, o.brk, None)
+            res.cont, res.contc = join_exit(res.cont, None, o.cont, None)
         if s.orelse and res.live is not None:
             o2 = self.exec_block(s.orelse, res.live, tree)
-            res = Outcome(o2.live, self._merge_exit(res.ret, o2.ret), self._merge_exit(res.brk, o2.brk), self._merge_exit(res.cont, o2.cont))
+            self._acc(res, o2)
+            res.live = o2.live
         if s.finalbody and res.live is not None:
             o3 = self.exec_block(s.finalbody, res.live, tree)
             res.live = o3.live
@@ -1623,7 +1698,7 @@ class Interp:
         if out.ret is not None:
             rv = out.ret.env.get("__ret__", NONE)
             if out.live is not None:
-                rv = mk_cond(("fellthrough", act.id), NONE, rv)
+                rv = mk_cond(out.retc if out.retc is not None else ("returned", act.id), rv, NONE)
         final = self._merge_exit(out.live, out.ret)
         return tree, rv, final
 
